@@ -308,6 +308,10 @@ func checkC14(p *Program, r *Report) {
 			r.OK("R14.5", key+": inputs argument never written")
 		}
 	}
+	{
+		models, _ := p.Registry()
+		checkRunLengthIndependence(p, r, models, "R14.6", false)
+	}
 }
 
 func InModuleGlobal(g *ssa.Global) bool {
